@@ -151,6 +151,7 @@ class Config:
         self.opaque_globals = {}   # module-global name -> SV factory (symbolic configuration inputs)
         self.pure_builtins = set()
         self.extern = {}           # dotted external function name -> handler(ex, st, args) -> outcomes
+        self.kwdict_copy_as_dict = False  # dict(kwargs) yields a modelled dict (symbolic lookups) instead of a static kwargs model
         self.pure_models = {}      # qualified function name -> handler(ex, st, closure, args) -> outcomes (abstract pure functions)
         self.inline_star_ctors = set()  # classes whose constructor may be inlined with a symbolic *args tuple
         self.summary_result_tags = {}  # summary name -> type tag of its result
@@ -552,6 +553,8 @@ class Executor:
                 return [('ok', st, z3.BoolVal(True))]
             if v.t == 'list':
                 return [('ok', st, z3.Length(st.arr['li'][v.v]) > 0)]
+            if v.t == 'dict':
+                return [('ok', st, fn('dict_nonempty', Z.ArrRB, B)(st.arr['dh'][v.v]))]
             if v.t and (v.t.startswith('inst:') or v.t in ('chainmap',)):
                 cname = v.t[5:]
                 ci = self.repo.classes.get(cname)
